@@ -425,18 +425,18 @@ pub fn c20_real_test(_w: &mut (), c: &RealShutdown) -> Verdict {
     drop(server);
     // "within a short bounded time new connection attempts are refused": stay quiet for a while
     // (a probing client would itself wake a sleeping accept loop), then the FIRST attempt counts
-    std::thread::sleep(Duration::from_millis(1500));
-    let mut refused = connect(()).is_err();
+    // a helper thread shows that this process does get scheduled during the quiet period
+    let alive = Arc::new(std::sync::atomic::AtomicBool::new(false));
+    let a2 = alive.clone();
+    let h = std::thread::spawn(move || a2.store(true, std::sync::atomic::Ordering::SeqCst));
+    std::thread::sleep(Duration::from_millis(3000));
+    let _ = h.join();
+    let refused = connect(()).is_err();
     if !refused {
-        // re-measure once after a longer quiet period before calling it a violation
-        std::thread::sleep(Duration::from_millis(3000));
-        refused = connect(()).is_err();
-        if refused {
-            return Verdict::Inconclusive("the listener closed only after a first probe connection (machine under load?)".into());
+        if !alive.load(std::sync::atomic::Ordering::SeqCst) {
+            return Verdict::Inconclusive("process not scheduled for 3 s".into());
         }
-    }
-    if !refused {
-        return fail("C20/real/accepting-after-drop", format!("connection attempts to {} still succeed 4.5 s after the server was dropped", addr));
+        return fail("C20/real/accepting-after-drop", format!("the first connection attempt to {} is still accepted 3 s after the server was dropped", addr));
     }
     if !c.tcp && std::path::Path::new(&path).exists() {
         return fail("C20/real/unix-path-not-removed", path);
